@@ -162,6 +162,29 @@ type algEnv struct {
 	// field definitions: fields assigned once in a constructor literal, as functions of other fields
 	fieldDefs map[string]ratFunc
 	notes     []string
+	// exprVars: non-numeric locals assigned exactly once from a call (e.g. an explanation built
+	// first and used afterwards): the identifier stands for that call expression
+	exprVars map[types.Object]ast.Expr
+}
+
+// resolveExpr: an identifier bound once to a call expression stands for that expression.
+func (e *algEnv) resolveExpr(x ast.Expr) ast.Expr {
+	for i := 0; i < 4; i++ {
+		id, ok := ast.Unparen(x).(*ast.Ident)
+		if !ok || e.exprVars == nil {
+			return x
+		}
+		obj := e.info.Uses[id]
+		if obj == nil {
+			obj = e.info.Defs[id]
+		}
+		r, ok := e.exprVars[obj]
+		if !ok || r == nil {
+			return x
+		}
+		x = r
+	}
+	return x
 }
 
 func (e *algEnv) child() *algEnv {
@@ -171,6 +194,12 @@ func (e *algEnv) child() *algEnv {
 		n.vars[k] = v
 	}
 	n.depth = e.depth + 1
+	if e.exprVars != nil {
+		n.exprVars = map[types.Object]ast.Expr{}
+		for k, v := range e.exprVars {
+			n.exprVars[k] = v
+		}
+	}
 	return &n
 }
 
@@ -314,40 +343,84 @@ func (e *algEnv) evalCall(call *ast.CallExpr) (ratFunc, error) {
 		}
 		return rfAtom(atomName(callee.Name() + "〈" + strings.Join(args, ",") + "〉")), nil
 	}
-	// small pure helper of the repository: single return expression
+	// small pure helper of the repository: single return
 	if callee != nil {
-		if fd, inf := e.c.funcDecl(callee); fd != nil && fd.Body != nil {
-			sub := e.child()
-			sub.info = inf
-			sub.recv = nil
-			if fd.Recv != nil && len(fd.Recv.List) == 1 && len(fd.Recv.List[0].Names) == 1 {
-				sub.recv = inf.Defs[fd.Recv.List[0].Names[0]]
-			}
-			// the receiver of the call must be the caller's receiver for field atoms to line up
-			i := 0
-			for _, fld := range fd.Type.Params.List {
-				for _, nm := range fld.Names {
-					if i < len(call.Args) {
-						rf, err := e.eval(call.Args[i])
-						if err != nil {
-							return rf, err
-						}
-						sub.vars[inf.Defs[nm]] = rf
-					}
-					i++
-				}
-			}
-			rets, err := sub.evalBody(fd.Body)
-			if err != nil {
-				return ratFunc{}, err
-			}
-			if len(rets) == 1 && rets[0].cond == "" && len(rets[0].values) >= 1 {
-				return sub.eval(rets[0].values[0])
-			}
-			return ratFunc{}, fmt.Errorf("helper %s is not a single-return function", callee.Name())
+		vals, err := e.evalHelper(callee, call)
+		if err != nil {
+			return ratFunc{}, err
 		}
+		if len(vals) >= 1 {
+			return vals[0], nil
+		}
+		return ratFunc{}, fmt.Errorf("helper %s returns nothing", callee.Name())
 	}
 	return ratFunc{}, fmt.Errorf("call %s", types.ExprString(call))
+}
+
+// evalHelper evaluates a call of a small repository function with one unconditional return
+// and gives the value of every (numeric) result; named results and a bare return are handled.
+func (e *algEnv) evalHelper(callee *types.Func, call *ast.CallExpr) ([]ratFunc, error) {
+	fd, inf := e.c.funcDecl(callee)
+	if fd == nil || fd.Body == nil {
+		return nil, fmt.Errorf("call %s", types.ExprString(call))
+	}
+	if e.depth > 6 {
+		return nil, fmt.Errorf("helper nesting too deep at %s", callee.Name())
+	}
+	sub := e.child()
+	sub.info = inf
+	sub.recv = nil
+	if fd.Recv != nil && len(fd.Recv.List) == 1 && len(fd.Recv.List[0].Names) == 1 {
+		sub.recv = inf.Defs[fd.Recv.List[0].Names[0]]
+	}
+	// the receiver of the call must be the caller's receiver for field atoms to line up
+	i := 0
+	for _, fld := range fd.Type.Params.List {
+		for _, nm := range fld.Names {
+			if i < len(call.Args) {
+				rf, err := e.eval(call.Args[i])
+				if err != nil {
+					return nil, err
+				}
+				sub.vars[inf.Defs[nm]] = rf
+			}
+			i++
+		}
+	}
+	var named []types.Object
+	if fd.Type.Results != nil {
+		for _, fld := range fd.Type.Results.List {
+			for _, nm := range fld.Names {
+				named = append(named, inf.Defs[nm])
+			}
+		}
+	}
+	rets, err := sub.evalBody(fd.Body)
+	if err != nil {
+		return nil, err
+	}
+	if len(rets) != 1 || rets[0].cond != "" {
+		return nil, fmt.Errorf("helper %s is not a single-return function", callee.Name())
+	}
+	var out []ratFunc
+	if len(rets[0].values) == 0 {
+		for _, o := range named {
+			rf, ok := rets[0].env.vars[o]
+			if !ok {
+				rf = rfAtom(atomName("‹" + o.Name() + "›"))
+			}
+			out = append(out, rf)
+		}
+		return out, nil
+	}
+	for _, v := range rets[0].values {
+		rf, err := rets[0].env.eval(v)
+		if err != nil {
+			rf = rfAtom(atomName("‹" + types.ExprString(v) + "›"))
+		}
+		out = append(out, rf)
+	}
+	return out, nil
 }
 
 func calleeObject(info *types.Info, call *ast.CallExpr) *types.Func {
@@ -403,6 +476,36 @@ func (e *algEnv) evalBody(body *ast.BlockStmt) ([]algReturn, error) {
 		for _, st := range stmts {
 			switch s := st.(type) {
 			case *ast.AssignStmt:
+				if len(s.Lhs) > 1 && len(s.Rhs) == 1 && (s.Tok == token.DEFINE || s.Tok == token.ASSIGN) {
+					// a, b := helper(x)
+					if call, ok := s.Rhs[0].(*ast.CallExpr); ok {
+						var vals []ratFunc
+						if callee := calleeObject(e.info, call); callee != nil {
+							vals, _ = e.evalHelper(callee, call)
+						}
+						for i, l := range s.Lhs {
+							id, ok := l.(*ast.Ident)
+							if !ok || id.Name == "_" {
+								continue
+							}
+							obj := e.info.Defs[id]
+							if obj == nil {
+								obj = e.info.Uses[id]
+							}
+							if obj == nil {
+								continue
+							}
+							if b, ok := obj.Type().Underlying().(*types.Basic); !ok || b.Info()&types.IsNumeric == 0 {
+								continue
+							}
+							if i < len(vals) {
+								e.vars[obj] = vals[i]
+							} else {
+								e.vars[obj] = rfAtom(atomName("‹" + id.Name + "›"))
+							}
+						}
+					}
+				}
 				if len(s.Lhs) == len(s.Rhs) && (s.Tok == token.DEFINE || s.Tok == token.ASSIGN) {
 					for i, l := range s.Lhs {
 						id, ok := l.(*ast.Ident)
@@ -413,7 +516,21 @@ func (e *algEnv) evalBody(body *ast.BlockStmt) ([]algReturn, error) {
 						if obj == nil {
 							obj = e.info.Uses[id]
 						}
+						if obj == nil {
+							continue
+						}
 						if b, ok := obj.Type().Underlying().(*types.Basic); !ok || b.Info()&types.IsNumeric == 0 {
+							// a non-numeric local bound to a call (an explanation built first, used later)
+							if _, isCall := ast.Unparen(s.Rhs[i]).(*ast.CallExpr); isCall {
+								if e.exprVars == nil {
+									e.exprVars = map[types.Object]ast.Expr{}
+								}
+								if _, again := e.exprVars[obj]; again {
+									e.exprVars[obj] = nil // assigned more than once: not a stand-in
+								} else {
+									e.exprVars[obj] = s.Rhs[i]
+								}
+							}
 							continue
 						}
 						rf, err := e.eval(s.Rhs[i])
@@ -621,7 +738,7 @@ func (e *algEnv) explanationOfCall(call *ast.CallExpr) (ratFunc, string, []ast.E
 	}
 	for _, r := range rets {
 		if len(r.values) == 1 {
-			if c2, ok := r.values[0].(*ast.CallExpr); ok {
+			if c2, ok := r.env.resolveExpr(r.values[0]).(*ast.CallExpr); ok {
 				return r.env.explanationOfCall(c2)
 			}
 		}
